@@ -399,6 +399,10 @@ class SimulationAlgorithm(BaseSimulationAlgorithm):
                     - individual_parameters_from_model_parameters[f"sources_{i}"].mean()
                 ) / individual_parameters_from_model_parameters[f"sources_{i}"].std()
 
+        if model.source_dimension == 0:
+            # no sources, hence no space shifts
+            return individual_parameters_from_model_parameters
+
         patient_source_values_matrix = torch.stack(
             [
                 torch.tensor(
